@@ -292,16 +292,32 @@ class Body:
         return None
 
     def return_defs(self):
-        """Definitions of the return place _0 on live normal paths: [(bb, expr, raw)]"""
+        """Definitions of the return place _0 on live normal paths: [(bb, expr, raw)].
+        A definition that merely forwards another local (`_0 = move _r`, e.g. the result of a spliced helper or a
+        `let r = if .. {..} else {..}; r`) is replaced by that local's own definitions, each at its own block."""
         out = []
         live = self.live_blocks()
-        for d in self.defs().get(0, []):
-            if d[1] not in live:
-                continue
-            if d[0] == "assign":
-                out.append((d[1], self.rvalue_expr(d[3]), d[3]))
-            elif d[0] == "call":
-                out.append((d[1], ("call", d[2], [self.operand_expr(a) for a in d[2].args]), d[2]))
+        seen = set()
+
+        def expand(local):
+            if local in seen:
+                return
+            seen.add(local)
+            for d in self.defs().get(local, []):
+                if d[1] not in live:
+                    continue
+                if d[0] == "assign":
+                    rv = d[3]
+                    src = rv.get("use") if isinstance(rv, dict) else None
+                    pl = (src.get("move") or src.get("copy")) if isinstance(src, dict) else None
+                    if pl is not None and not pl["p"] and pl["l"] != 0 and len(self.defs().get(pl["l"], [])) > 1 \
+                            and all(x[0] in ("assign", "call") for x in self.defs()[pl["l"]]) and not any(fw[2]["l"] == pl["l"] for fw in self.field_writes):
+                        expand(pl["l"])
+                    else:
+                        out.append((d[1], self.rvalue_expr(rv), rv))
+                elif d[0] == "call":
+                    out.append((d[1], ("call", d[2], [self.operand_expr(a) for a in d[2].args]), d[2]))
+        expand(0)
         return out
 
     def normal_blocks(self):
@@ -824,7 +840,9 @@ def agg_is(e, adt_suffix, variant=None):
 INLINE_ANCHOR_PREFIXES = (
     "xs::store::Store::append", "xs::store::Store::insert_frame", "xs::store::Store::remove", "xs::store::Store::new", "xs::store::Store::read",
     "xs::store::Store::read_sync", "xs::store::Store::head", "xs::store::Store::iter_frames", "xs::store::Store::get", "xs::store::ttl::parse_ttl",
-    "xs::store::idx_topic_key_from_frame", "xs::api::handle", "xs::api::match_route", "xs::handlers::handler::Handler::", "xs::handlers::serve::",
+    "xs::store::ttl::TTL::to_query", "xs::store::ttl::TTL::from_query", "<xs::store::ttl::TTL as serde::ser::Serialize>::serialize", "xs::store::ReadOptions::to_query_string",
+    "xs::store::idx_topic_key_from_frame", "xs::store::idx_context_key_from_frame", "xs::store::idx_topic_key_prefix", "xs::store::idx_topic_frame_id_from_key",
+    "xs::store::idx_context_key_range_end", "xs::api::handle", "xs::api::match_route", "xs::handlers::handler::Handler::", "xs::handlers::serve::",
     "xs::generators::serve::", "xs::commands::serve::", "xs::nu::util::write_pipeline_to_cas", "<xs::nu::commands::")
 # crate-local functions the rules identify by their call sites (never inlined even when they have a single caller)
 ROLE_FNS = ("xs::commands::serve::run_command", "xs::handlers::handler::EngineWorker::new", "xs::store::spawn_gc_worker", "xs::store::is_expired",
@@ -832,9 +850,16 @@ ROLE_FNS = ("xs::commands::serve::run_command", "xs::handlers::handler::EngineWo
 
 
 class _AnchorSet:
-    """Membership by prefix: a body is an anchor if its def path starts with one of the prefixes."""
+    """Membership by prefix: a body is an anchor if its def path starts with one of the prefixes, or if it is a closure of a
+    helper that was itself spliced into an anchor (adopted)."""
+    def __init__(self):
+        self.adopted = []
+
+    def adopt(self, helper_def):
+        self.adopted.append(helper_def + "::{")
+
     def __contains__(self, d):
-        return isinstance(d, str) and d.startswith(INLINE_ANCHOR_PREFIXES)
+        return isinstance(d, str) and (d.startswith(INLINE_ANCHOR_PREFIXES) or (bool(self.adopted) and d.startswith(tuple(self.adopted))))
 
 
 INLINE_ANCHORS = _AnchorSet()
@@ -881,7 +906,8 @@ class Facts:
         self.lib.siblings = self.crates
         self.bin.siblings = self.crates
         from . import inline
-        self.inlined = inline.apply(self, INLINE_ANCHORS, PINNED_NAMES)
+        self.inlined = []
+        self.inlined = inline.apply(self, _AnchorSet(), PINNED_NAMES)
 
     def all_bodies(self):
         for c in self.crates:
@@ -895,16 +921,30 @@ class Facts:
                 return c.bodies[def_]
         return None
 
+    def _roots(self, prefix):
+        """`prefix` plus the helpers spliced into it (or into a closure below it): their closures now belong to it."""
+        roots = [prefix]
+        grew = True
+        while grew:
+            grew = False
+            for (a, h) in self.inlined:
+                if h not in roots and any(a == r or a.startswith(r + "::") for r in roots):
+                    roots.append(h)
+                    grew = True
+        return roots
+
     def bodies_under(self, prefix):
-        """The body `prefix` and every closure / coroutine / nested item body below it."""
+        """The body `prefix` and every closure / coroutine / nested item body below it (closures of spliced helpers included)."""
         out = []
+        roots = self._roots(prefix)
         for b in self.all_bodies():
-            if b.def_ == prefix or b.def_.startswith(prefix + "::{") or b.def_.startswith(prefix + "::"):
+            if any(b.def_ == r or b.def_.startswith(r + "::") for r in roots):
                 out.append(b)
         return out
 
     def closures_under(self, prefix):
-        return [b for b in self.all_bodies() if b.def_.startswith(prefix + "::{")]
+        roots = self._roots(prefix)
+        return [b for b in self.all_bodies() if any(b.def_.startswith(r + "::{") for r in roots)]
 
     def all_calls(self):
         for b in self.all_bodies():
